@@ -931,6 +931,7 @@ std::string opStall(const std::vector<std::string>& w)
     if (w.size() != 5 && w.size() != 6) return "bad-op";
     int nw = atoi(w[1].c_str()); size_t size = strtoul(w[2].c_str(), nullptr, 10); int holdMs = atoi(w[3].c_str()); int nB = atoi(w[4].c_str());
     bool second = w.size() == 6 && w[5] == "1";
+    bool third = w.size() == 6 && w[5] == "2";     // another connection becomes readable just before A becomes writable: both in one epoll batch
     Cfg c; c.threads = 1; uint16_t port = ensureEndpoint(c);
     RespScript sc; sc.mode = "send"; sc.code = 200; sc.chunks = { "ok" };
     { std::lock_guard<std::mutex> g(G.m); G.script = sc; }
@@ -961,6 +962,16 @@ std::string opStall(const std::vector<std::string>& w)
     }
     if (nB == 0) std::this_thread::sleep_for(std::chrono::milliseconds(holdMs));
     long attemptsDuring; { std::lock_guard<std::mutex> g(WR.m); attemptsDuring = WR.attempts - attemptsBefore; }
+    int fc = -1; int cAnswered = -1;
+    if (third) {
+        // C is an established, idle connection; while the worker is busy with B, C's request arrives (readable) and then A starts
+        // to read (writable): the next epoll_wait returns both events in one batch, C's first
+        fc = connectTo(port); sendAll(fc, "GET /c0 HTTP/1.1\r\nHost: h\r\n\r\n"); readResponse(fc, 600);
+        sendAll(fb, "GET /slow300 HTTP/1.1\r\nHost: h\r\n\r\n");
+        std::this_thread::sleep_for(std::chrono::milliseconds(80));
+        sendAll(fc, "GET /c HTTP/1.1\r\nHost: h\r\n\r\n");
+        std::this_thread::sleep_for(std::chrono::milliseconds(40));
+    }
     if (second) {
         // the worker is kept busy by B while A both asks for a second batch and starts to read: A's socket becomes readable and
         // writable in one readiness event
@@ -982,7 +993,8 @@ std::string opStall(const std::vector<std::string>& w)
         std::unique_lock<std::mutex> lk(WR.m);
         WR.cv.wait_for(lk, std::chrono::milliseconds(500), [&] { if (!WR.issued) return false; for (auto& p : WR.promises) if (p == "pending") return false; return true; });
     }
-    if (second) readResponse(fb, 600);
+    if (second || third) readResponse(fb, 600);
+    if (third) { cAnswered = statusOf(readResponse(fc, 1500)) == 200 ? 1 : 0; ::close(fc); }
     ::close(fb);
     ::close(fa);
     std::this_thread::sleep_for(std::chrono::milliseconds(20));
@@ -999,6 +1011,7 @@ std::string opStall(const std::vector<std::string>& w)
         + " recv=" + std::to_string(got.size()) + " match=" + (firstDiff == std::string::npos ? "1" : "0:" + std::to_string(firstDiff)) + " promises=";
     for (size_t i = 0; i < WR.promises.size(); ++i) { if (i) out += ","; out += WR.promises[i] + (WR.settles[i] > 1 ? "x" + std::to_string(WR.settles[i]) : ""); }
     if (WR.promises.empty()) out += "-";
+    if (third) out += " c=" + std::to_string(cAnswered);
     out += " raw_worst_ms=" + std::to_string(worst) + " raw_attempts=" + std::to_string(attemptsDuring);
     return out;
 }
